@@ -26,7 +26,7 @@ DIPOLES = [[1.0, 0.0, 0.0], [0.3, 0.9, 0.1], [-0.4, 0.2, 0.8], [0.5, -0.7, 0.4],
 
 
 def aggregate(energies, J=None, bath=None, ta=None, mult=1, dipoles=None,
-              build=True, modes=None, name_prefix="m", same_cf=True):
+              build=True, modes=None, name_prefix="m", same_cf=True, e0=0.0):
     """Aggregate of two-level molecules; energies and J in 1/cm.
 
     bath: spec or None; ta: TimeAxis (needed when bath given)."""
@@ -36,7 +36,7 @@ def aggregate(energies, J=None, bath=None, ta=None, mult=1, dipoles=None,
     cf = None
     with qr.energy_units("1/cm"):
         for i, e in enumerate(energies):
-            m = qr.Molecule(elenergies=[0.0, float(e)])
+            m = qr.Molecule(elenergies=[float(e0), float(e)])
             d = (dipoles or DIPOLES)[i % len(dipoles or DIPOLES)]
             m.set_dipole(0, 1, list(d))
             mols.append(m)
@@ -87,15 +87,16 @@ def full_J(n, vals):
     return J
 
 
-def ham_sbi(energies, J, bath, ta):
+def ham_sbi(energies, J, bath, ta, e0=0.0):
     """Plain Hamiltonian + SystemBathInteraction (site projectors), with ground
-    state; returns (ham, sbi)."""
+    state (energy e0, 1/cm); returns (ham, sbi)."""
     qr = isolation.qr()
     from quantarhei.qm.corfunctions import CorrelationFunctionMatrix
     from quantarhei.qm import SystemBathInteraction, Operator
     n = len(energies)
     dim = n + 1
     h = numpy.zeros((dim, dim))
+    h[0, 0] = e0
     for i in range(n):
         h[i + 1, i + 1] = energies[i]
         for j in range(n):
